@@ -7,6 +7,7 @@ import (
 	"strings"
 
 	"github.com/hashicorp/hcl/v2"
+	"github.com/hashicorp/hcl/v2/ext/tryfunc"
 	"github.com/zclconf/go-cty/cty"
 	"github.com/zclconf/go-cty/cty/function"
 	"golang.org/x/text/unicode/norm"
@@ -16,7 +17,14 @@ import (
 )
 
 var stdFuncSpecs = gen.StdFuncs()
-var stdCtyFuncs = gen.CtyFuncs(stdFuncSpecs)
+var stdCtyFuncs = func() map[string]function.Function {
+	m := gen.CtyFuncs(stdFuncSpecs)
+	// functions whose arguments are handed over as unevaluated expressions
+	// (ext/customdecode): the generators do not call them, directed programs do
+	m["try"] = tryfunc.TryFunc
+	m["can"] = tryfunc.CanFunc
+	return m
+}()
 
 // evalCtx builds an hcl.EvalContext for a scope with the harness function table.
 func evalCtx(s *gen.Scope) *hcl.EvalContext {
